@@ -318,6 +318,16 @@ func execCase(c core.Case) []string {
 			out = append(out, fmt.Sprintf("ok a=%d,%d b=%d,%d", as, ar, bs, br))
 			continue
 		}
+		if f[0] == "link" {
+			if m["dir"] == "" || m["did"] == "" || m["info"] == "" {
+				out = append(out, "bad-op")
+				continue
+			}
+			v := linkScript(m["dir"], m["did"], m["info"])
+			count(mitmHist, fmt.Sprintf("link dir=%s did=%s info=%s %s", m["dir"], m["did"], m["info"], v))
+			out = append(out, v)
+			continue
+		}
 		if f[0] == "multi" {
 			k, ok1 := atoi(m["k"])
 			rn, ok2 := atoi(m["r"])
@@ -1289,6 +1299,28 @@ func oracle(c core.Case, out []string) []core.Finding {
 			}
 			ds = map[string]*odir{"ab": {wNonce: 1, rNonce: 1}, "ba": {wNonce: 1, rNonce: 1}}
 			continue
+		case "link":
+			// an admitted peer's presented identity (NodeInfo ID; the dialed ID when dialing) must be
+			// the ID of the key that completed the handshake (the counterparty always holds key A)
+			dirn := map[string]string{"out": "outbound", "in": "inbound"}[m["dir"]]
+			honest := m["info"] == "A" && (m["dir"] == "in" || m["did"] == "A")
+			switch {
+			case o == "bad-op":
+			case strings.HasPrefix(o, "harness-") || o == "timeout" || strings.HasPrefix(o, "err:"):
+				add("harness.link-script-failed."+dirn, op+": "+o)
+			case strings.HasPrefix(o, "admitted"):
+				switch {
+				case m["info"] != "A" || o != "admitted:key-id":
+					add("transport.upgrade.admits-foreign-nodeinfo-id."+dirn, "a counterparty holding key A presented NodeInfo ID B and was admitted as peer B ("+op+": "+o+")")
+				case m["dir"] == "out" && m["did"] == "none":
+					add("transport.upgrade.admits-without-dialed-id.outbound", "dialing an address without ID admitted whoever answered as an authenticated peer ("+op+": "+o+")")
+				case m["dir"] == "out" && m["did"] != "A":
+					add("transport.upgrade.admits-undialed-key.outbound", "dialed ID B, the key that completed the handshake is A, admitted ("+op+": "+o+")")
+				}
+			case honest:
+				add("transport.upgrade.rejects-honest-peer."+dirn, op+": "+o)
+			}
+			continue
 		case "multi":
 			switch {
 			case o == "bad-op":
@@ -1869,6 +1901,10 @@ func genMitm(r *rand.Rand, emit func(core.Case), rounds int) {
 		for _, k := range upKinds {
 			emit(core.Case{Kind: "upgrade", Ops: []string{"up kind=" + k}})
 		}
+		for _, l := range []string{"dir=out did=A info=A", "dir=out did=A info=B", "dir=out did=B info=A", "dir=out did=B info=B",
+			"dir=out did=none info=A", "dir=out did=none info=B", "dir=in did=- info=A", "dir=in did=- info=B"} {
+			emit(core.Case{Kind: "link", Ops: []string{"link " + l}})
+		}
 		for i := 0; i < 6; i++ {
 			k := 1 + r.Intn(8)
 			emit(core.Case{Kind: "multi-session", Ops: []string{fmt.Sprintf("multi k=%d r=%d", k, k+r.Intn(2*k+1))}})
@@ -1883,7 +1919,7 @@ func genMitm(r *rand.Rand, emit func(core.Case), rounds int) {
 	// glue: malformed lines
 	emit(core.Case{Kind: "glue", Ops: []string{"r d=ab k=1", "hs", "r d=xx k=1", "w d=ab", "flip d=ab off=0 bit=9",
 		"flip d=ab off=0 bit=1", "cut d=ab off=0 len=1", "trunc d=ab n=1", "swapf d=ab i=0 j=0", "dupf d=ab i=0 at=0",
-		"mitm kind=nonsense", "mitm", "up", "up kind=nonsense", "multi", "multi k=0 r=1", "multi k=2 r=0", "multi k=17 r=1", "mitm kind=low-order k=99", "wraw d=ab len=4294967296 body=00", "wraw d=ab len=1", "wraw d=ab len=3 body=010203", "reflectw d=zz", "setnonce d=ab side=x v=1", "frob d=ab", "r d=ab k=0", "w d=ab data=-", "r d=ab k=4"}})
+		"mitm kind=nonsense", "mitm", "up", "up kind=nonsense", "link", "link dir=up did=A info=A", "link dir=in did=A info=A", "link dir=out did=C info=A", "link dir=out did=A info=C", "multi", "multi k=0 r=1", "multi k=2 r=0", "multi k=17 r=1", "mitm kind=low-order k=99", "wraw d=ab len=4294967296 body=00", "wraw d=ab len=1", "wraw d=ab len=3 body=010203", "reflectw d=zz", "setnonce d=ab side=x v=1", "frob d=ab", "r d=ab k=0", "w d=ab data=-", "r d=ab k=4"}})
 }
 
 func main() {
@@ -1907,7 +1943,7 @@ func main() {
 		Oracle: oracle,
 		NonTrivial: func(c core.Case, out []string) bool {
 			for _, o := range out {
-				if strings.HasPrefix(o, "ok ") || strings.HasPrefix(o, "a=") || strings.HasPrefix(o, "rej:") || strings.HasPrefix(o, "eph=") || o == "ok" {
+				if strings.HasPrefix(o, "ok ") || strings.HasPrefix(o, "a=") || strings.HasPrefix(o, "rej:") || strings.HasPrefix(o, "eph=") || strings.HasPrefix(o, "admitted") || o == "ok" {
 					return true
 				}
 			}
